@@ -196,23 +196,40 @@ def check(run):
                 return cont
         return None
     loopw = [n_ for n_ in ir.walk(ic["body"]) if n_.get("k") == "While"]
+    # the total of a container is the local that accumulates (+=) that container's size; names are the tool's business
+    acc_of = {}
+    all_adds = []
+    for n_ in ir.walk(ic["body"]):
+        if n_.get("k") == "Bin" and n_.get("op") == "+=" and counted(n_["rhs"]) is not None:
+            p = path(n_["lhs"])
+            if p and len(p) == 1 and p[0].startswith("l:"):
+                all_adds.append((p[0], counted(n_["rhs"]), n_))
+    total_var = {}
     for var, cont in want.items():
         getter = getter_of[cont]
-        adds = []
-        for n_ in ir.walk(ic["body"]):
-            if n_.get("k") == "Bin" and n_.get("op") == "+=":
-                p = path(n_["lhs"])
-                if p and p[0].split("#")[0] == "l:%s" % var:
-                    adds.append(n_)
-        ok = len(adds) == 1 and counted(adds[0]["rhs"]) == cont
+        mine = [a for a in all_adds if a[1] == cont]
+        adds = [a[2] for a in mine]
+        # exactly one total takes this container's size, and that total takes nothing else
+        ok = len(mine) == 1 and len([a for a in all_adds if a[0] == mine[0][0]]) == 1
+        if ok:
+            total_var[mine[0][0]] = var
         run.ob("R18.4", "cdns_itemcount:%s+=%s" % (var, getter), ok, ic, adds[0].get("l", 0) if adds else ic["line"],
-               "total %s accumulates the size of %s of every block" % (var, cont) if ok else
-               "%s is accumulated from %s" % (var, show(adds[0]["rhs"]) if adds else "nothing"))
+               "one total accumulates the size of %s of every block" % cont if ok else
+               "the size of %s is accumulated into %s; each total must accumulate exactly its own container" % (
+                   cont, [a[0].split("#")[0][2:] for a in mine] or "nothing"))
         # accumulation happens after the `if (end) break;`
         lw = [l_ for l_ in loopw if adds and any(x is adds[0] for x in ir.walk(l_))]
         if adds and lw:
             body = ir.stmts(lw[0].get("body"))
-            idx_end = [i for i, s in enumerate(body) if s.get("k") == "If" and "end" in show(s["cond"]) and any(x.get("k") == "Break" for x in ir.walk(s))]
+            # the end-of-input flag is whatever local is handed (by reference) to read_block()
+            flags = set()
+            for c_ in ir.calls_in(lw[0]):
+                if callee_name(c_) == "read_block" and c_.get("args"):
+                    fp = path(c_["args"][0])
+                    if fp:
+                        flags.add(ir.path_str(fp))
+            idx_end = [i for i, s in enumerate(body) if s.get("k") == "If" and any(ir.path_str(path(x) or ()) in flags for x in ir.walk(s["cond"]) if x.get("k") == "Ref")
+                       and any(x.get("k") == "Break" for x in ir.walk(s))]
             idx_add = [i for i, s in enumerate(body) if any(x is adds[0] for x in ir.walk(s))]
             ok2 = bool(idx_end) and bool(idx_add) and idx_end[0] < idx_add[0]
             run.ob("R18.4", "cdns_itemcount:%s:after-end-test" % var, ok2, ic, adds[0].get("l", 0),
@@ -224,10 +241,11 @@ def check(run):
             continue
         txt = show(st)
         if "std::cout" in txt:
+            refs = [ir.path_str(path(x) or ()) for x in ir.walk(st) if x.get("k") == "Ref" and x.get("d") == "local"]
             for var, cont in want.items():
                 if (cont + ".size()") in txt or getter_of[cont] in txt:
                     prints.append((var, g, st.get("l", 0), txt))
-                elif var in txt:
+                elif any(total_var.get(r_) == var for r_ in refs):
                     prints.append((var, g, st.get("l", 0), txt))
     labels_ok = True
     bad = []
